@@ -74,6 +74,7 @@ fn main() {
         "script" => script::cmd_script(&m),
         "debug-valid" => debug_valid(&args[2]),
         "one" => cmd_one(&m),
+        "emit-one" => cmd_emit_one(&m),
         "emit-crate" => cmd_emit_crate(&m),
         "cross-check" => cmd_cross_check(&m),
         other => harness_error(&format!("unknown subcommand {other}")),
@@ -491,10 +492,17 @@ fn cmd_emit_crate(m: &BTreeMap<String, String>) {
         if no_user_ce && r.item.contains("compile_error") {
             continue;
         }
-        if r.has_none_group() {
-            // source text cannot express a None-delimited group
-            continue;
-        }
+        // source text cannot express a None-delimited group: such a request is handed to the
+        // compiler the way it arises in practice, through a `macro_rules!` wrapper whose
+        // `$t:ty` / `$e:expr` fragments become the groups
+        let wrapped = if r.has_none_group() {
+            match macro_rules_wrapper(&r) {
+                Some(w) => Some(w),
+                None => continue,
+            }
+        } else {
+            None
+        };
         ordinal += 1;
         if (ordinal - 1) % shard_n.max(1) != shard_k {
             continue;
@@ -519,9 +527,10 @@ fn cmd_emit_crate(m: &BTreeMap<String, String>) {
         if ok_only && (r.item.contains('!') || r.attr.contains('!') || !only_plain_attrs(&r)) {
             continue;
         }
-        let body = match r.mode {
-            req::Mode::Attr => format!("#[derive_ex({})]\n{}", r.attr, r.item),
-            req::Mode::Derive => format!("#[derive(Ex)]\n{}", r.item),
+        let body = match (&wrapped, r.mode) {
+            (Some(w), _) => w.clone(),
+            (None, req::Mode::Attr) => format!("#[derive_ex({})]\n{}", r.attr, r.item),
+            (None, req::Mode::Derive) => format!("#[derive(Ex)]\n{}", r.item),
         };
         src.push_str(&format!("mod m{k} {{\nuse ::derive_ex::{{derive_ex, Ex}};\n{body}\n}}\n"));
         index.push(serde_json::json!({"module": format!("m{k}"), "req": r, "digest": obs.digest,
@@ -532,6 +541,103 @@ fn cmd_emit_crate(m: &BTreeMap<String, String>) {
     let idx = out.with_extension("index.json");
     std::fs::write(&idx, serde_json::to_string(&index).unwrap()).unwrap_or_else(|e| harness_error(&format!("{e}")));
     println!("emit-crate: {k} modules -> {}", out.display());
+}
+
+/// Prints the source text that hands the last request of a replay file to a real compiler
+/// (the plain attribute / derive form, or the `macro_rules!` wrapper if the request contains
+/// None-delimited groups). Exit 3 if the request cannot be expressed in source text.
+fn cmd_emit_one(m: &BTreeMap<String, String>) {
+    let p: String = get(m, "replay", String::new());
+    let text = std::fs::read_to_string(&p).unwrap_or_else(|e| harness_error(&format!("{p}: {e}")));
+    let v: serde_json::Value = serde_json::from_str(&text).unwrap_or_else(|e| harness_error(&format!("{p}: {e}")));
+    let plan = &v["plan"];
+    let idx = plan["steps"].as_array().and_then(|s| s.last()).and_then(|s| s["req"].as_u64()).unwrap_or(0) as usize;
+    let r: req::Request = serde_json::from_value(plan["reqs"][idx].clone()).unwrap_or_else(|e| harness_error(&format!("{p}: {e}")));
+    let body = if r.has_none_group() {
+        match macro_rules_wrapper(&r) {
+            Some(w) => w,
+            None => std::process::exit(3),
+        }
+    } else {
+        match r.mode {
+            req::Mode::Attr => format!("#[derive_ex({})]\n{}", r.attr, r.item),
+            req::Mode::Derive => format!("#[derive(Ex)]\n{}", r.item),
+        }
+    };
+    println!("{body}");
+}
+
+/// `macro_rules! w { ($d:tt, $f0:ty, $f1:expr) => { #[derive_ex(..)] item } } w!{ $, frag0, frag1 }`
+/// for a request that contains None-delimited groups: every outermost group becomes a fragment
+/// parameter (`expr` inside attributes if it parses as one, `ty` otherwise), every literal `$`
+/// of the request becomes `$d`. None if a fragment is neither a type nor an expression or
+/// contains a `$` (no real `macro_rules!` expansion can produce that).
+fn macro_rules_wrapper(r: &req::Request) -> Option<String> {
+    use proc_macro2::{Delimiter, Group, Ident, Punct, Spacing, Span, TokenStream, TokenTree};
+    struct W {
+        frags: Vec<(&'static str, String)>,
+        bad: bool,
+    }
+    fn walk(ts: TokenStream, in_attr: bool, w: &mut W) -> TokenStream {
+        let v: Vec<TokenTree> = ts.into_iter().collect();
+        let mut out: Vec<TokenTree> = Vec::new();
+        for (i, t) in v.iter().enumerate() {
+            match t {
+                TokenTree::Punct(p) if p.as_char() == '$' => {
+                    out.push(TokenTree::Punct(Punct::new('$', Spacing::Alone)));
+                    out.push(TokenTree::Ident(Ident::new("d", Span::call_site())));
+                }
+                TokenTree::Group(g) if g.delimiter() == Delimiter::None => {
+                    let inner = req::flatten(g.stream());
+                    let text = inner.to_string();
+                    if text.contains('$') || text.trim().is_empty() || text.trim() == "_" {
+                        w.bad = true;
+                    }
+                    let is_expr = syn::parse2::<syn::Expr>(inner.clone()).is_ok();
+                    let is_ty = syn::parse2::<syn::Type>(inner.clone()).is_ok();
+                    let kind = match (in_attr, is_expr, is_ty) {
+                        (true, true, _) => "expr",
+                        (true, false, true) => "ty",
+                        (false, _, true) => "ty",
+                        (false, true, false) => "expr",
+                        _ => {
+                            w.bad = true;
+                            "tt"
+                        }
+                    };
+                    let name = format!("f{}", w.frags.len());
+                    w.frags.push((kind, text));
+                    out.push(TokenTree::Punct(Punct::new('$', Spacing::Alone)));
+                    out.push(TokenTree::Ident(Ident::new(&name, Span::call_site())));
+                }
+                TokenTree::Group(g) => {
+                    let is_attr = g.delimiter() == Delimiter::Bracket
+                        && i > 0
+                        && matches!(&v[i - 1], TokenTree::Punct(p) if p.as_char() == '#' || p.as_char() == '!');
+                    out.push(TokenTree::Group(Group::new(g.delimiter(), walk(g.stream(), in_attr || is_attr, w))));
+                }
+                t => out.push(t.clone()),
+            }
+        }
+        out.into_iter().collect()
+    }
+    let mut w = W { frags: Vec::new(), bad: false };
+    let attr = walk(req::lex(&r.attr)?, true, &mut w).to_string();
+    let item = walk(req::lex(&r.item)?, false, &mut w).to_string();
+    if w.bad || w.frags.is_empty() || w.frags.len() > 12 {
+        return None;
+    }
+    let params: Vec<String> = w.frags.iter().enumerate().map(|(i, (k, _))| format!("$f{i}:{k}")).collect();
+    let args: Vec<String> = w.frags.iter().map(|(_, t)| t.clone()).collect();
+    let head = match r.mode {
+        req::Mode::Attr => format!("#[derive_ex({attr})]"),
+        req::Mode::Derive => "#[derive(Ex)]".to_string(),
+    };
+    Some(format!(
+        "macro_rules! w {{ ($d:tt ; {}) => {{ {head}\n{item} }} }}\nw! {{ $ ; {} }}",
+        params.join(" ; "),
+        args.join(" ; ")
+    ))
 }
 
 /// True if every attribute in the item is one of derive-ex's own or a harmless inert one, so
